@@ -207,7 +207,13 @@ func runEquip(c *ctx) error {
 					{Key: "nsv2", Loc: "10.0.0.2", Ports: [3]uint16{5, 6, 7}, Signer: inner}}, k))
 			}
 		}
-		s.QueryServers()
+		// bans of servers that may be known by now, under every signer (also unsigned): only the registered GCA's count
+		for _, k := range []string{"", "x1", "temp", "gca2", "gca"} {
+			for i := 0; i < 4; i++ {
+				s.AuthorizeServer(s.BuildServer(hx.ServerSpec{Key: fmt.Sprintf("sv%d", i), Banned: true, Loc: "127.0.0.1", Ports: [3]uint16{1, 1, 1}, Signer: k}))
+			}
+			s.QueryServers()
+		}
 	}
 	if err := regSeq("reg/before", func() { honoured() }); err != nil {
 		return err
